@@ -54,7 +54,8 @@ def run(sc, tier, replay):
                 f.write(json.dumps(l) + "\n")
 
     def one(k):
-        return vlib.run([binary, "-in", sc.path("lay%d.ndjson" % k), "-out", sc.path("up%d.trace" % k)] + (["-big"] if k >= nsh else []), timeout=1800)
+        return vlib.run([binary, "-in", sc.path("lay%d.ndjson" % k), "-out", sc.path("up%d.trace" % k)] + (["-big"] if k >= nsh else []) +
+                        (["-samename"] if k % 2 == 1 else []), timeout=1800)   # every other shard: both files under one client file name
     with ThreadPoolExecutor(max_workers=nsh + nbig) as ex2:
         rs = list(ex2.map(one, range(nsh + nbig)))
     runs = []
